@@ -36,7 +36,7 @@ Record qrow := { q_res : nat; q_date : Z; q_task : nat; q_units : Q }.
 ROW = ('rec', 'qrow')
 ROWS = ('list', ROW)
 NEAREST = ('fun', ['Z', 'Z'], 'Z', True)        # resource.get_nearest_availability_date(start, direction)
-GAU = ('fun', ['Z'], 'num', True)              # resource.get_available_units(date, task)
+GAU = ('fun', ['Z', ('option', 'nat')], 'num', True)     # resource.get_available_units(date, task): both arguments are passed on
 
 
 def reserved_call(tr, e, env, k):
@@ -61,7 +61,7 @@ def primitive(cls, func, coq, fwd):
               signature=[('balance', 'bool'), ('nearest', NEAREST), ('gau', GAU), ('resource', 'nat'),
                          ('resource_usage', ROWS), ('start_date', 'Z'), ('task', 'nat')],
               calls={'resource.get_nearest_availability_date': ('apply', 'nearest', NEAREST, [0, 1]),
-                     'resource.get_available_units': ('apply', 'gau', GAU, [0]),
+                     'resource.get_available_units': ('apply', 'gau', GAU, [0, 1]),
                      'resource_usage.reserved': ('custom', reserved_call)},
               locals={'d': 'Z', 'date': 'Z', 'days': 'Z', 'left_hours': 'num', 'date_available_units': 'num',
                       'reserved': 'num', 'available': 'num', 'max_available': 'num', 'percent': 'num', 'resource_usage': ROWS})
@@ -71,7 +71,6 @@ def primitive(cls, func, coq, fwd):
 def nearest_spec(cls, coq, max_steps):
     sp = primitive(cls, '__get_resource_nearest_available_date', coq, cls.startswith('F'))
     sp['signature'] = sp['signature'] + [('max_steps', 'Z')]
-    sp['defaults'] = {'max_steps': max_steps}
     sp['ret'] = 'Z'
     return sp
 
@@ -80,7 +79,6 @@ def shift_spec(cls, coq):
     sp = primitive(cls, '__shift_by_resource_usage_and_calendar', coq, cls.startswith('F'))
     sp['params']['left_hours'] = ('left_hours', 'num')
     sp['signature'] = sp['signature'] + [('left_hours', 'num'), ('max_steps', 'Z')]
-    sp['defaults'] = {'max_steps': '100000'}
     sp['ret'] = 'Z'
     sp['state'] = 'resource_usage'
     sp['mutators'] = {'resource_usage.reserve': ('resource_usage', 'src_qreserve', ['nat', 'Z', 'nat', 'num'], 'num')}
